@@ -110,17 +110,16 @@ func backendProp(b backendSpec, meaning string) propFunc {
 		if b.Name == "hlsl" {
 			r.Clauses = append(r.Clauses, missReportedClause)
 			c.runMissReported(r, "bindmap.missreported", b.Pkg)
-			r.floor("bindmap.missreported", 2)
+			r.floor("bindmap.missreported", 1)
 		}
 		if b.Name == "glsl" {
 			r.Clauses = append(r.Clauses, "no glued signs (E93): where the GLSL writer puts a sign directly before substituted expression text (\"-%s\", \"-\" + text), the same function looks at how that text starts (strings.HasPrefix) - \"-\" before \"-5\" is the decrement operator")
 			c.runPrefixGlue(r, "parens.prefixglue", b.Pkg)
-			r.floor("parens.prefixglue", 1)
 		}
 		if b.Name == "glsl" || b.Name == "hlsl" {
 			r.Clauses = append(r.Clauses, epSelectClause)
 			c.runEPSelectAgree(r, "epselect.agree", b.Pkg)
-			r.floor("epselect.agree", 4)
+			r.floor("epselect.agree", 1)
 		}
 		if b.Name == "glsl" || b.Name == "hlsl" || b.Name == "msl" {
 			r.Clauses = append(r.Clauses, "textures as arguments (E65): a function that answers which image type an expression has by looking for the global variable behind it also answers for a function argument (an arm for ExprFunctionArgument, the expression's resolved type, or a callee that does)")
